@@ -187,6 +187,9 @@ func (s *Spec) base() any {
 		if s.R == "bytes" {
 			return []byte(s.S)
 		}
+		if s.R == "named" {
+			return namedString(s.S)
+		}
 		return s.S
 	case "arr":
 		return s.realiseArr()
